@@ -160,7 +160,7 @@ class InotifyEmitter(EventEmitter):
             src_path = self._decode_path(event.src_path)
             if event.is_moved_from and event.is_directory and self.watch.is_recursive:
                 # No matching IN_MOVED_TO showed up: the directory has left the watched tree.
-                self._inotify.remove_tree_watches(event.src_path)
+                self._inotify.remove_tree_watches(event.src_path, event.cookie)
             if event.is_moved_to:
                 if full_events:
                     cls = DirMovedEvent if event.is_directory else FileMovedEvent
